@@ -2,6 +2,7 @@ package udp
 
 import (
 	"context"
+	"errors"
 	"net"
 	"sync"
 	"time"
@@ -9,6 +10,9 @@ import (
 	"github.com/postalsys/muti-metroo/internal/crypto"
 	"github.com/postalsys/muti-metroo/internal/identity"
 )
+
+// ErrAssociationClosed is returned by Encrypt and Decrypt once the association has been closed.
+var ErrAssociationClosed = errors.New("association closed")
 
 // AssociationState represents the state of a UDP association.
 type AssociationState int
@@ -204,6 +208,13 @@ func (a *Association) Encrypt(plaintext []byte) ([]byte, error) {
 	a.mu.RLock()
 	defer a.mu.RUnlock()
 
+	// Close wipes the key. A closed association must never fall back to the
+	// pass-through below: the exit read loop may still hold a reply that was
+	// read before the close, and it would go out in plaintext.
+	if a.closed {
+		return nil, ErrAssociationClosed
+	}
+
 	if a.SessionKey == nil {
 		return plaintext, nil
 	}
@@ -218,6 +229,10 @@ func (a *Association) Encrypt(plaintext []byte) ([]byte, error) {
 func (a *Association) Decrypt(ciphertext []byte) ([]byte, error) {
 	a.mu.RLock()
 	defer a.mu.RUnlock()
+
+	if a.closed {
+		return nil, ErrAssociationClosed
+	}
 
 	if a.SessionKey == nil {
 		return ciphertext, nil
